@@ -230,6 +230,15 @@ def _profile_case(known, read_blocks, delta):
         if p.gene_profile[i] == 0 and com.contains_well_inside(inner, f, 1) and not any(com.overlaps(f, r) for r in read_blocks) \
                 and f[0] > inner[0] + 1 and f[1] < inner[1] - 1 and len(read_blocks) > 1 and False:
             problems.append("exon %s lies between the read's first and last exon but is unmarked" % (f,))
+    # the production exon constructor (default absence condition): an exon is excluded only if it lies between the read's first and its
+    # last exon (or was matched by a read exon that a nearer annotated exon won)
+    cp = lrp.OverlappingFeaturesProfileConstructor(known, region, comparator=partial(com.equal_ranges, delta=delta), delta=delta)
+    pp = cp.construct_exon_profile(read_blocks)
+    problems += _profile_oracle_problems("exon", known, read_blocks, delta, pp.gene_profile, pp.read_profile)
+    for i, f in enumerate(known):
+        if pp.gene_profile[i] == -1 and not (f[0] >= read_blocks[0][1] and f[1] <= read_blocks[-1][0]) and \
+                not any(abs(r[0] - f[0]) <= delta and abs(r[1] - f[1]) <= delta for r in read_blocks):
+            problems.append("exon %s marked excluded by a read %s whose first and last exon it does not lie between" % (f, read_blocks))
     # intron profile (absence: the intron is contained in the read's span)
     introns = com.junctions_from_blocks(read_blocks)
     known_introns = com.junctions_from_blocks(known) if len(known) > 1 else []
